@@ -513,6 +513,37 @@ let conc_family (dir : string) =
     | _ -> failwith ("bad line: " ^ line)) lines;
   close_out oc
 
+
+(* ---------------- family "pq" ---------------- *)
+let pq_family (dir : string) =
+  let lines = read_lines (Filename.concat dir "cases.txt") in
+  let oc = open_out (Filename.concat dir "model.txt") in
+  let k = ref 0 and nb = ref 0 and step = ref 0 and q = ref init_pq in
+  List.iter (fun line ->
+    match tokens line with
+    | ["case"; kk; n] -> k := int_of_string kk; nb := int_of_string n; step := 0; q := init_pq
+    | "o" :: rest ->
+        let op = match rest with
+          | ["push"; b; p] -> QOPush (cz b, cz p)
+          | ["pop"] -> QOPop
+          | ["fix"; b; p; l] -> QOFix (cz b, cz p, sb l)
+          | _ -> failwith ("bad pq op: " ^ line) in
+        let (q1, out) = qstep !q op in
+        q := q1;
+        let outs = match out with Some (b, p) -> zs b ^ ":" ^ zs p | None -> "-" in
+        let buf = Buffer.create 256 in
+        Buffer.add_string buf (Printf.sprintf "%d %d out=%s arr=" !k !step outs);
+        List.iter (fun (b, p) -> Buffer.add_string buf (zs b ^ ":" ^ zs p ^ ",")) q1.arr;
+        Buffer.add_string buf " idx=";
+        for i = 0 to !nb - 1 do
+          Buffer.add_string buf (Printf.sprintf "%d:%s," i (zs (q1.idx (czi i))))
+        done;
+        Printf.fprintf oc "%s\n" (Buffer.contents buf);
+        incr step
+    | ["end"] | [] -> ()
+    | _ -> failwith ("bad line: " ^ line)) lines;
+  close_out oc
+
 let () =
   match Array.to_list Sys.argv with
   | [_; "bar"; dir] -> bar_family dir
@@ -521,4 +552,5 @@ let () =
   | [_; "proxy"; dir] -> proxy_family dir
   | [_; "fmt"; dir] -> fmt_family dir
   | [_; "conc"; dir] -> conc_family dir
+  | [_; "pq"; dir] -> pq_family dir
   | _ -> prerr_endline "usage: mpbmodel <family> <dir>"; exit 2
